@@ -296,4 +296,19 @@ example : (⟨10, 2, [⟨1, 0⟩, ⟨2, 1⟩]⟩ : Filter).testAndSet 2 3
     = (⟨10, 2, [⟨2, 1⟩, ⟨3, 2⟩]⟩, false) := by decide
 example : (⟨10, 5, [⟨1, 7⟩, ⟨2, 8⟩]⟩ : Filter).testAndSet 3 9 = (⟨10, 5, [⟨9, 3⟩]⟩, false) := by decide
 
+
+/-- **structural fact, regenerated from the Go source on every run (go/ast)**: every package-level
+    variable (file-scope `var`) of the packages this property's mechanisms live in
+    (common/replayfilter) is one of the names below — error values, fixed byte strings,
+    flags and function hooks that the code only reads after initialisation.  The models treat all
+    other state as owned by one connection / one object; a NEW package-level variable (a cache, a
+    pool, a scratch buffer, a pre-keyed hash shared "to save allocations") is how such state comes
+    to be shared between connections and goroutines, which compiles, passes the tests and typically
+    needs true parallelism or a multi-connection history to misbehave.  Adding one breaks this
+    theorem; the concurrent / multi-connection families of the harness then search for the failing
+    schedule. -/
+theorem no_new_package_level_state :
+    O4.Facts.Replayfilter.pkg_vars ⊆ [] := by
+  decide
+
 end C11
